@@ -68,10 +68,29 @@ fn store_case(ctx: &mut Ctx, case: u64, rng: &mut Rng, scratch: &Scratch) {
     let (mut store, path) = new_store(if file { Backend::File } else { Backend::Memory }, scratch);
     let docs: Vec<Universe> = (1..=3).map(|i| Universe::with(namespace(i), 2)).collect();
     let mut caps = vec![Cap::None; 3];
+    let mut trace = vec![];
+    // One file in four starts as a file written by an early version: its (writable) documents are in
+    // the old `namespaces-1` table, which the first open converts. Nothing of that old table may
+    // matter afterwards: a document removed and imported read-only later stays read-only.
+    if file && rng.chance(1, 4) {
+        let n = rng.range(1, 3);
+        for d in 0..n {
+            store.import_namespace(Capability::Write(docs[d].ns.clone())).unwrap();
+            caps[d] = Cap::Write;
+        }
+        store.flush().unwrap();
+        drop(store);
+        if let Err(e) = crate::props::c18::namespaces_to_v1(path.as_ref().unwrap()) {
+            ctx.harness_error(format!("rewriting the namespaces table with plain redb failed: {e:?}"));
+            return;
+        }
+        store = Store::persistent(path.as_ref().unwrap()).expect("open of an old file");
+        trace.push(format!("file of an early version with {n} writable documents in the old namespaces table, opened"));
+        ctx.count("files_of_an_early_version", 1);
+    }
     for a in &docs[0].authors {
         store.import_author(a.clone()).unwrap();
     }
-    let mut trace = vec![];
     let mut upgraded = false;
     let mut tick = 0u64;
     let n_steps = rng.range(4, 30);
@@ -174,6 +193,15 @@ fn store_case(ctx: &mut Ctx, case: u64, rng: &mut Rng, scratch: &Scratch) {
                     ctx.violation(case, if caps[d] == Cap::Read { "read-only-replica-refused-valid-remote-entry" } else { "remote-insert-result-unexpected" },
                         json!({"doc": d, "cap": format!("{:?}", caps[d]), "trace": trace}));
                     return;
+                }
+            }
+            6 if rng.chance(1, 2) => {
+                // removal: the document and its capability are gone, until it is imported again
+                let r = store.remove_replica(&id);
+                trace.push(format!("remove doc{d} -> {}", r.is_ok()));
+                ctx.count("removals", 1);
+                if r.is_ok() {
+                    caps[d] = Cap::None;
                 }
             }
             7 => {
